@@ -20,3 +20,22 @@ pub open spec fn fn_typed(f: v1::Function, o: Function) -> bool {
         None => false,
     }
 }
+pub open spec fn u64s_distinct(s: Seq<u64>) -> bool { forall|i: int, j: int| 0 <= i < j < s.len() ==> #[trigger] s[i] != #[trigger] s[j] }
+pub type HintCtx = (HashMap<VariableID, DecisionVariable>, HashMap<ConstraintID, Constraint>);
+pub open spec fn vars_defined(c: HintCtx, ids: Seq<u64>) -> bool { forall|i: int| 0 <= i < ids.len() ==> c.0@.contains_key(VariableID(#[trigger] ids[i])) }
+pub open spec fn cons_defined(c: HintCtx, ids: Seq<u64>) -> bool { forall|i: int| 0 <= i < ids.len() ==> c.1@.contains_key(ConstraintID(#[trigger] ids[i])) }
+pub open spec fn var_set_of(s: Set<VariableID>, ids: Seq<u64>) -> bool { forall|k: VariableID| #[trigger] s.contains(k) <==> exists|i: int| 0 <= i < ids.len() && #[trigger] ids[i] == k.0 }
+pub open spec fn con_set_of(s: Set<ConstraintID>, ids: Seq<u64>) -> bool { forall|k: ConstraintID| #[trigger] s.contains(k) <==> exists|i: int| 0 <= i < ids.len() && #[trigger] ids[i] == k.0 }
+// error shapes of the hint parsers
+pub open spec fn undef_var_err(e: ParseError, c: HintCtx, ids: Seq<u64>, m: StrLit, f: StrLit) -> bool {
+    exists|i: int| 0 <= i < ids.len() && !c.0@.contains_key(VariableID(#[trigger] ids[i])) && err_at(e, RawParseError::UndefinedVariableID { id: VariableID(ids[i]) }, seq![ctx(m, f)])
+}
+pub open spec fn dup_var_err(e: ParseError, ids: Seq<u64>, m: StrLit, f: StrLit) -> bool {
+    exists|i: int, j: int| 0 <= i < j < ids.len() && #[trigger] ids[i] == #[trigger] ids[j] && err_at(e, RawParseError::NonUniqueVariableID { id: VariableID(ids[j]) }, seq![ctx(m, f)])
+}
+pub open spec fn undef_con_err(e: ParseError, c: HintCtx, ids: Seq<u64>, m: StrLit, f: StrLit) -> bool {
+    exists|i: int| 0 <= i < ids.len() && !c.1@.contains_key(ConstraintID(#[trigger] ids[i])) && err_at(e, RawParseError::UndefinedConstraintID { id: ConstraintID(ids[i]) }, seq![ctx(m, f)])
+}
+pub open spec fn dup_con_err(e: ParseError, ids: Seq<u64>, m: StrLit, f: StrLit) -> bool {
+    exists|i: int, j: int| 0 <= i < j < ids.len() && #[trigger] ids[i] == #[trigger] ids[j] && err_at(e, RawParseError::NonUniqueConstraintID { id: ConstraintID(ids[j]) }, seq![ctx(m, f)])
+}
